@@ -760,3 +760,221 @@ Proof.
     { apply (countp_pos occupying (runs s) (R P) i Hi). unfold occupying. rewrite Eph. reflexivity. }
     lia.
 Qed.
+
+(* ------------------------------------------------------------------ *)
+(* the annealing run                                                    *)
+
+Lemma count_tag_app : forall t a b, count_tag t (a ++ b) = count_tag t a + count_tag t b.
+Proof. intros t a b. unfold count_tag. rewrite filter_app, app_length. reflexivity. Qed.
+
+Section Anneal.
+  Variable fresh : bool.
+  Variable T0 cf : Q.
+  Variable N : nat.
+  Variable tloc base : loc.
+  Variable ch : nat -> choice.
+  Variable m0 : mem.
+
+  Let p := anneal_prog fresh T0 cf N tloc base.
+
+  (* control flow depends on the step index only *)
+  Lemma anneal_going : forall k, k <= N + 1 ->
+    so_status (solo p ch m0 k) = Going /\
+    count_tag tagFinishedAnnealing (so_events (solo p ch m0 k)) = 0 /\
+    count_tag tagStartedAnnealing (so_events (solo p ch m0 k)) = (if Nat.eqb k 0 then 0 else 1) /\
+    count_tag tagStartedIteration (so_events (solo p ch m0 k)) = pred k.
+  Proof.
+    unfold p. induction k as [| k IH]; intros Hle.
+    - cbn. auto.
+    - destruct IH as (Hs & Hf & Ha & Hi); [lia |].
+      cbn [solo]. unfold solo_step. rewrite Hs. cbn [lstep anneal_prog]. unfold anneal_lstep.
+      destruct k as [| k'].
+      + cbn [so_status so_events]. rewrite !count_tag_app, Hf, Ha, Hi. cbn. auto.
+      + assert (Hleb : Nat.leb (S k') N = true) by (apply Nat.leb_le; lia). rewrite Hleb.
+        cbn [so_status so_events]. rewrite !count_tag_app, Hf, Ha, Hi. cbn. repeat split; lia.
+  Qed.
+
+  Lemma anneal_fin :
+    so_status (solo p ch m0 (N + 2)) = Fin /\
+    count_tag tagFinishedAnnealing (so_events (solo p ch m0 (N + 2))) = 1 /\
+    count_tag tagStartedAnnealing (so_events (solo p ch m0 (N + 2))) = 1 /\
+    count_tag tagStartedIteration (so_events (solo p ch m0 (N + 2))) = N.
+  Proof.
+    destruct (anneal_going (N + 1)) as (Hs & Hf & Ha & Hi); [lia |]. unfold p in *.
+    replace (N + 2) with (S (N + 1)) by lia.
+    cbn [solo]. unfold solo_step. rewrite Hs. cbn [lstep anneal_prog]. unfold anneal_lstep.
+    replace (N + 1) with (S N) in * by lia.
+    assert (Hleb : Nat.leb (S N) N = false) by (apply Nat.leb_gt; lia). rewrite Hleb.
+    cbn [so_status so_events]. rewrite !count_tag_app, Hf, Ha, Hi. cbn. repeat split; lia.
+  Qed.
+
+  Lemma anneal_status : forall k, so_status (solo p ch m0 k) = if Nat.leb (N + 2) k then Fin else Going.
+  Proof.
+    intros k. destruct (Nat.leb_spec (N + 2) k) as [Hle | Hlt].
+    - rewrite (solo_stable p ch m0 (N + 2) k); [apply anneal_fin | | exact Hle].
+      destruct anneal_fin as (Hs & _). rewrite Hs. discriminate.
+    - apply anneal_going. lia.
+  Qed.
+
+  (* the first event of the run, whatever the memory held before: StartedAnnealing *)
+  Lemma anneal_first_event : forall k, 1 <= k -> exists rest,
+    so_events (solo p ch m0 k) =
+      (tagStartedAnnealing, [if fresh then T0 else m0 tloc; 0%Q]) :: rest.
+  Proof.
+    intros k Hk. destruct (solo_events_prefix_le p ch m0 1 k Hk) as [more H].
+    exists more. rewrite H. reflexivity.
+  Qed.
+End Anneal.
+
+Lemma fixed_fp_view : forall i (x y z : val) (m : mem),
+  view [clone_base i; (clone_base i + 1)%N; (clone_base i + 2)%N]
+       (write [clone_base i; (clone_base i + 1)%N; (clone_base i + 2)%N] [x; y; z] m) = [x; y; z].
+Proof.
+  intros i x y z m. unfold view, write, upd. cbn [map].
+  rewrite !N.eqb_refl.
+  assert (E1 : N.eqb (clone_base i) (clone_base i + 1) = false) by (apply N.eqb_neq; lia).
+  assert (E2 : N.eqb (clone_base i) (clone_base i + 2) = false) by (apply N.eqb_neq; lia).
+  assert (E3 : N.eqb (clone_base i + 1) (clone_base i + 2) = false) by (apply N.eqb_neq; lia).
+  rewrite E1, E2, E3. reflexivity.
+Qed.
+
+(* second and third event of a clone after the fix: iteration 1 at T0 with an empty archive *)
+Lemma fixed_first_iteration : forall T0 cf N i ch m0 k, 1 <= N -> 2 <= k -> exists rest,
+  so_events (solo (fixed_prog T0 cf N i) ch m0 k) =
+    (tagStartedAnnealing, [T0; 0%Q]) :: (tagStartedIteration, [(0 + 1)%Q; T0; 0%Q]) :: rest.
+Proof.
+  intros T0 cf N i ch m0 k HN Hk.
+  destruct (solo_events_prefix_le (fixed_prog T0 cf N i) ch m0 2 k Hk) as [more H].
+  rewrite H. clear H.
+  change (solo (fixed_prog T0 cf N i) ch m0 2)
+    with (solo_step (fixed_prog T0 cf N i) ch 1 (solo_step (fixed_prog T0 cf N i) ch 0 (mkSolo m0 [] Going))).
+  unfold solo_step at 2. cbn [so_status fixed_prog anneal_prog lstep anneal_lstep so_mem so_events fp app].
+  unfold solo_step. cbn [so_status fixed_prog anneal_prog lstep so_mem so_events fp].
+  rewrite fixed_fp_view. unfold anneal_lstep.
+  assert (Hleb : Nat.leb 1 N = true) by (apply Nat.leb_le; lia). rewrite Hleb.
+  cbn [nth_val nth so_events app]. eexists. reflexivity.
+Qed.
+
+Lemma fixed_progs_length : forall T0 cf N R, length (fixed_progs T0 cf N R) = R.
+Proof. intros. unfold fixed_progs. rewrite map_length, seq_length. reflexivity. Qed.
+
+Lemma fixed_progs_nth : forall T0 cf N R i, i < R -> nth i (fixed_progs T0 cf N R) idle_prog = fixed_prog T0 cf N i.
+Proof.
+  intros T0 cf N R i Hi. unfold fixed_progs.
+  rewrite (nth_indep _ idle_prog (fixed_prog T0 cf N 0)) by (rewrite map_length, seq_length; exact Hi).
+  rewrite (map_nth (fixed_prog T0 cf N) (seq 0 R) 0 i). rewrite seq_nth by exact Hi. reflexivity.
+Qed.
+
+Lemma fixed_fp_disjoint : forall i j, i <> j ->
+  disjointb [clone_base i; (clone_base i + 1)%N; (clone_base i + 2)%N]
+            [clone_base j; (clone_base j + 1)%N; (clone_base j + 2)%N] = true.
+Proof.
+  intros i j Hne. unfold disjointb, memb, clone_base. cbn [forallb existsb].
+  repeat match goal with |- context [N.eqb ?a ?b] =>
+    let E := fresh "E" in assert (E : N.eqb a b = false) by (apply N.eqb_neq; lia); rewrite E; clear E end.
+  reflexivity.
+Qed.
+
+Lemma fixed_progs_disjoint_from : forall T0 cf N n start,
+  pairwise_disjointb (map fp (map (fixed_prog T0 cf N) (seq start n))) = true.
+Proof.
+  intros T0 cf N n. induction n as [| n IH]; intros start; [reflexivity |].
+  cbn [seq map pairwise_disjointb]. apply andb_true_iff. split; [| apply IH].
+  apply forallb_forall. intros f Hf. apply in_map_iff in Hf. destruct Hf as [q [Hq Hin]].
+  apply in_map_iff in Hin. destruct Hin as [j [Hj Hin]]. apply in_seq in Hin. subst q f.
+  cbn [fixed_prog anneal_prog fp]. apply fixed_fp_disjoint. lia.
+Qed.
+
+Lemma fixed_progs_disjoint : forall T0 cf N R, pairwise_disjointb (map fp (fixed_progs T0 cf N R)) = true.
+Proof. intros. apply fixed_progs_disjoint_from. Qed.
+
+(* ------------------------------------------------------------------ *)
+(* R annealing clones under the runner, any interleaving                *)
+
+Definition full_trace (T0 cf : Q) (N : nat) (i : nat) (ch : nat -> choice) (m0 : mem) : list event :=
+  so_events (solo (fixed_prog T0 cf N i) ch m0 (N + 2)).
+
+Lemma fixed_runs_prefix : forall T0 cf N R c ch m0 sch i, i < R ->
+  let s := exec (fixed_progs T0 cf N R) c ch sch (init_state m0) in
+  exists more, full_trace T0 cf N i (ch i) m0 = events_of i (trace s) ++ more.
+Proof.
+  intros T0 cf N R c ch m0 sch i Hi s.
+  assert (Hi' : i < length (fixed_progs T0 cf N R)) by (rewrite fixed_progs_length; exact Hi).
+  destruct (noninterference _ c ch m0 sch (fixed_progs_disjoint T0 cf N R) i Hi') as (He & _).
+  fold s in He. rewrite fixed_progs_nth in He by exact Hi. rewrite He. unfold full_trace.
+  destruct (Nat.le_ge_cases (pc (runs s i)) (N + 2)) as [Hle | Hge].
+  - apply solo_events_prefix_le. exact Hle.
+  - exists []. rewrite app_nil_r. f_equal. symmetry. apply solo_stable; [| exact Hge].
+    unfold fixed_prog. rewrite anneal_status. rewrite Nat.leb_refl. discriminate.
+Qed.
+
+Lemma fixed_runs_complete : forall T0 cf N R c ch m0 sch,
+  let s := exec (fixed_progs T0 cf N R) c ch sch (init_state m0) in
+  returned s = true -> forall i, i < R ->
+  events_of i (trace s) = full_trace T0 cf N i (ch i) m0 /\
+  count (is_spawn i) (trace s) = 1 /\ count (is_done i) (trace s) = 1.
+Proof.
+  intros T0 cf N R c ch m0 sch s Hr i Hi.
+  assert (Hi' : i < length (fixed_progs T0 cf N R)) by (rewrite fixed_progs_length; exact Hi).
+  destruct (complete_runs _ c ch m0 sch (fixed_progs_disjoint T0 cf N R) Hr i Hi')
+    as (_ & Hst & Hstab & He & _ & Hsp & _ & Hdn).
+  fold s in Hst, Hstab, He, Hsp, Hdn. rewrite fixed_progs_nth in Hst, Hstab, He by exact Hi.
+  split; [| split; [exact Hsp | exact Hdn]].
+  rewrite He. unfold full_trace. f_equal.
+  destruct (Nat.le_ge_cases (pc (runs s i)) (N + 2)) as [Hle | Hge].
+  - symmetry. apply Hstab. exact Hle.
+  - apply solo_stable; [| exact Hge].
+    unfold fixed_prog. rewrite anneal_status. rewrite Nat.leb_refl. discriminate.
+Qed.
+
+Lemma full_trace_shape : forall T0 cf N i ch m0,
+  (exists rest, full_trace T0 cf N i ch m0 = (tagStartedAnnealing, [T0; 0%Q]) :: rest) /\
+  (1 <= N -> exists rest, full_trace T0 cf N i ch m0 =
+       (tagStartedAnnealing, [T0; 0%Q]) :: (tagStartedIteration, [(0 + 1)%Q; T0; 0%Q]) :: rest) /\
+  count_tag tagStartedAnnealing (full_trace T0 cf N i ch m0) = 1 /\
+  count_tag tagStartedIteration (full_trace T0 cf N i ch m0) = N /\
+  count_tag tagFinishedAnnealing (full_trace T0 cf N i ch m0) = 1.
+Proof.
+  intros T0 cf N i ch m0. unfold full_trace, fixed_prog.
+  destruct (anneal_fin true T0 cf N (clone_base i) (clone_base i) ch m0) as (_ & Hf & Ha & Hi).
+  split; [apply (anneal_first_event true); lia |].
+  split; [intros HN; apply (fixed_first_iteration T0 cf N i ch m0 (N + 2)); lia |].
+  auto.
+Qed.
+
+(* ------------------------------------------------------------------ *)
+(* the shared-coolant shape (D4 before its fix), by computation         *)
+
+Definition d4_T0 : Q := 100 # 1.
+Definition d4_cf : Q := 19 # 20.
+Definition d4_N : nat := 3.
+Definition d4_progs : list prog := shared_progs d4_T0 d4_cf d4_N 2.
+Definition d4_ch : nat -> nat -> choice := fun _ _ => 1%Z.
+Definition d4_m0 : mem := upd (fun _ => 0%Q) shared_tloc d4_T0.
+Definition d4_final : state := exec d4_progs 1 d4_ch (sequential 2 d4_N) (init_state d4_m0).
+
+Lemma shared_coolant_refuted :
+  pairwise_disjointb (map fp d4_progs) = false /\
+  returned d4_final = true /\
+  first_with tagStartedAnnealing (events_of 0 (trace d4_final)) = Some [d4_T0; 0%Q] /\
+  first_with tagStartedAnnealing (events_of 1 (trace d4_final)) = Some [(d4_T0 * d4_cf * d4_cf * d4_cf)%Q; 0%Q] /\
+  ~ (d4_T0 * d4_cf * d4_cf * d4_cf == d4_T0)%Q /\
+  first_with tagStartedAnnealing
+    (so_events (solo (nth 1 d4_progs idle_prog) (d4_ch 1) d4_m0 (pc (runs d4_final 1)))) = Some [d4_T0; 0%Q] /\
+  events_of 1 (trace d4_final) <> so_events (solo (nth 1 d4_progs idle_prog) (d4_ch 1) d4_m0 (pc (runs d4_final 1))).
+Proof.
+  split; [vm_compute; reflexivity |]. split; [vm_compute; reflexivity |].
+  split; [vm_compute; reflexivity |]. split; [vm_compute; reflexivity |].
+  split; [intro H; vm_compute in H; discriminate H |].
+  split; [vm_compute; reflexivity |].
+  intro H. vm_compute in H. discriminate H.
+Qed.
+
+(* c = 0 (which Runner.WithMaximumConcurrentRuns refuses) would deadlock at once *)
+Lemma zero_slots_deadlock : forall P m0 a, 1 <= length P -> enabled P 0 (init_state m0) a = false.
+Proof.
+  intros P m0 a HP. unfold enabled, init_state. cbn [crashed wgpanic returned next inflight runs ph orb].
+  destruct a as [| i].
+  - assert (H : Nat.ltb 0 (R P) = true) by (apply Nat.ltb_lt; unfold R; lia). rewrite H. reflexivity.
+  - apply andb_false_r.
+Qed.
